@@ -83,6 +83,8 @@ type subCfg struct {
 	mod  int // 0 = no filter; otherwise accept m%mod == rem
 	rem  int
 	late bool
+	onF  bool // OnFiltered set
+	onT  bool // OnTimeout set
 }
 
 func (c subCfg) accepts(m int) bool { return c.mod == 0 || m%c.mod == c.rem }
@@ -97,6 +99,8 @@ func roundC06(rng *rand.Rand, rep *report, round int, seed int64) {
 	cfgs := make([]subCfg, S)
 	subs := make([]*publisher.Subscriber[int], S)
 	got := make([][]int, S)
+	nFiltered := make([]atomic.Int64, S)
+	nTimedOut := make([]atomic.Int64, S)
 	var rwg sync.WaitGroup
 	stop := make(chan struct{})
 	startSub := func(i int) {
@@ -106,6 +110,12 @@ func roundC06(rng *rand.Rand, rep *report, round int, seed int64) {
 			opts = append(opts, publisher.WithFilter(func(m int) bool { return m%c.mod == c.rem }))
 		}
 		opts = append(opts, publisher.WithTimeout[int](60*time.Second))
+		if c.onF {
+			opts = append(opts, publisher.OnFiltered(func(m int) { nFiltered[i].Add(1) }))
+		}
+		if c.onT {
+			opts = append(opts, publisher.OnTimeout(func(m int) { nTimedOut[i].Add(1) }))
+		}
 		subs[i] = pub.Subscribe(c.cap, opts...)
 		rwg.Add(1)
 		ch := subs[i].Receive()
@@ -140,6 +150,8 @@ func roundC06(rng *rand.Rand, rep *report, round int, seed int64) {
 			cfgs[i].late = true
 			nLate++
 		}
+		cfgs[i].onF = rng.Intn(2) == 0
+		cfgs[i].onT = rng.Intn(2) == 0
 	}
 	for i := range cfgs {
 		if !cfgs[i].late {
@@ -201,6 +213,11 @@ func roundC06(rng *rand.Rand, rep *report, round int, seed int64) {
 				return
 			}
 		}
+		if nTimedOut[i].Load() != 0 {
+			rep.Failures = append(rep.Failures, failure{"OnTimeout fired for a subscriber that keeps receiving (timeout 60s)",
+				fmt.Sprintf("subscriber %d: %d OnTimeout calls", i, nTimedOut[i].Load()), "c06-stress:timeout", round, seed})
+			return
+		}
 		if !c.late {
 			// subscribed during every Publish: exactly the accepted messages
 			want := 0
@@ -219,6 +236,14 @@ func roundC06(rng *rand.Rand, rep *report, round int, seed int64) {
 				}
 			}
 			rep.Histogram["pairs-exact"] += want
+			if c.onF {
+				if rej := int64(P*N - want); nFiltered[i].Load() != rej {
+					rep.Failures = append(rep.Failures, failure{"OnFiltered not invoked exactly once per rejected message",
+						fmt.Sprintf("subscriber %d: %d rejected messages, %d OnFiltered calls", i, rej, nFiltered[i].Load()), "c06-stress:onfiltered", round, seed})
+					return
+				}
+				rep.Histogram["subscribers-filter+callbacks"]++
+			}
 		} else {
 			rep.Histogram["pairs-late-subscriber"] += len(got[i])
 		}
@@ -257,11 +282,15 @@ func roundC15(rng *rand.Rand, rep *report, round int, seed int64) {
 			s.cfg.mod = 2 + rng.Intn(2)
 			s.cfg.rem = rng.Intn(s.cfg.mod)
 		}
-		switch rng.Intn(3) {
+		switch rng.Intn(5) {
 		case 0:
 			s.tmo = time.Duration(30+rng.Intn(50)) * time.Millisecond
 		case 1:
 			s.tmo = time.Duration(100+rng.Intn(100)) * time.Millisecond
+		case 2:
+			s.tmo = 0 // time.After(0) fires at once: a message that cannot be sent immediately is dropped
+		case 3:
+			s.tmo = -time.Second
 		default:
 			s.tmo = 60 * time.Second
 		}
@@ -392,7 +421,7 @@ func roundC15(rng *rand.Rand, rep *report, round int, seed int64) {
 		for _, v := range s.got {
 			recv[v]++
 		}
-		if s.mode == 0 && len(s.got) < s.cfg.cap {
+		if s.mode == 0 && s.tmo > 0 && len(s.got) < s.cfg.cap {
 			acc := 0
 			for _, m := range all {
 				if s.cfg.accepts(m) {
@@ -452,6 +481,156 @@ func roundC15(rng *rand.Rand, rep *report, round int, seed int64) {
 	if len(rep.Samples) < 4 {
 		rep.Samples = append(rep.Samples, fmt.Sprintf("S=%d subscribers (never/slow/prompt receivers, timeouts 30ms..60s), P=%d publishers x N=%d, slowest Publish %v", S, P, N, time.Duration(maxLat.Load())))
 	}
+}
+
+// burstC15: many publishers released at the same instant onto one small buffer that nobody reads, with a
+// 60s subscriber timeout: every single Publish call must return promptly (bound: 2s), the buffer absorbs
+// exactly its capacity, the surplus deliveries wait in the background and are dropped by Close.
+func burstC15(rng *rand.Rand, rep *report, trials int, seed int64) {
+	for trial := 0; trial < trials; trial++ {
+		K := 8 + rng.Intn(9)
+		c := 1 + rng.Intn(3)
+		pub := publisher.NewPublication[int]()
+		sub := pub.Subscribe(c, publisher.WithTimeout[int](60*time.Second))
+		other := pub.Subscribe(0, publisher.WithTimeout[int](60*time.Second)) // unbuffered, never receives either
+		start := make(chan struct{})
+		lat := make([]time.Duration, K)
+		var wg sync.WaitGroup
+		for i := 0; i < K; i++ {
+			wg.Add(1)
+			go func() {
+				defer wg.Done()
+				<-start
+				t0 := time.Now()
+				pub.Publish(i + 1)
+				lat[i] = time.Since(t0)
+			}()
+		}
+		close(start)
+		done := make(chan struct{})
+		go func() { wg.Wait(); close(done) }()
+		blocked := false
+		select {
+		case <-done:
+		case <-time.After(2 * time.Second):
+			blocked = true
+		}
+		if !blocked {
+			for _, d := range lat {
+				if d > 2*time.Second {
+					blocked = true
+				}
+			}
+		}
+		if blocked {
+			rep.Failures = append(rep.Failures, failure{"Publish blocks when subscribers do not receive",
+				fmt.Sprintf("burst trial %d: %d publishers released together onto a buffer of %d that nobody reads (subscriber timeout 60s): a Publish call had not returned after 2s", trial, K, c),
+				"c15-stress:publish-blocks", trial, seed})
+			pub.Close()
+			return
+		}
+		// the buffer absorbs exactly its capacity (the deliveries run in the background)
+		deadline := time.Now().Add(5 * time.Second)
+		for len(sub.Receive()) < c && time.Now().Before(deadline) {
+			time.Sleep(50 * time.Microsecond)
+		}
+		if n := len(sub.Receive()); n != c {
+			rep.Failures = append(rep.Failures, failure{"a never-receiving subscriber's buffer did not absorb its capacity",
+				fmt.Sprintf("burst trial %d: %d messages published, buffer of %d holds %d after 5s", trial, K, c, n), "c15-stress:buffer", trial, seed})
+			pub.Close()
+			return
+		}
+		_ = other
+		pub.Close()
+		rep.Evaluations += 2 * K
+		rep.Histogram["burst-publish-calls"] += K
+	}
+	if left := waitNoGoroutines(10 * time.Second); left != 0 {
+		rep.Failures = append(rep.Failures, failure{"delivery goroutines remain after the publication was closed",
+			fmt.Sprintf("%d goroutines of the package left after the publish bursts", left), "c15-stress:leak", 0, seed})
+		return
+	}
+	rep.Histogram["burst-trials"] += trials
+	rep.Samples = append(rep.Samples, fmt.Sprintf("%d bursts of 8-16 simultaneous Publish calls onto a never-read buffer of 1-3 (timeout 60s), every call under 2s", trials))
+}
+
+// ---------- C10: simultaneous closers of one subscriber (many trials in one child process) ----------
+
+func c10burstChild(seed int64, trials int) {
+	rng := rand.New(rand.NewSource(seed))
+	res := c10result{Hist: map[string]int{}}
+	fail := func(what, detail, sig string) {
+		res.Failures = append(res.Failures, failure{what, detail, sig, 0, seed})
+		out, _ := json.Marshal(res)
+		fmt.Println(string(out))
+		os.Exit(0)
+	}
+	for trial := 0; trial < trials; trial++ {
+		pub := publisher.NewPublication[int]()
+		sub := pub.Subscribe(1, publisher.WithTimeout[int](60*time.Second))
+		other := pub.Subscribe(1, publisher.WithTimeout[int](60*time.Second))
+		pub.Publish(42) // one message buffered in each: it must stay readable after the close
+		for len(sub.Receive()) < 1 || len(other.Receive()) < 1 {
+			runtime.Gosched()
+		}
+		N := 2 + rng.Intn(5)
+		pubCloser := rng.Intn(N + 1) // index of the closer that calls Publication.Close (N = nobody)
+		start := make(chan struct{})
+		var wg sync.WaitGroup
+		for c := 0; c < N; c++ {
+			wg.Add(1)
+			go func() {
+				defer wg.Done()
+				<-start
+				if c == pubCloser {
+					pub.Close()
+				} else {
+					sub.Close()
+				}
+			}()
+		}
+		close(start)
+		done := make(chan struct{})
+		go func() { wg.Wait(); close(done) }()
+		select {
+		case <-done:
+		case <-time.After(10 * time.Second):
+			fail("Close does not return (deadlock)", fmt.Sprintf("trial %d: %d simultaneous closers still blocked after 10s", trial, N), "c10-stress:close-hangs")
+		}
+		if v, ok := <-sub.Receive(); !ok || v != 42 {
+			fail("a message buffered before the close is not readable afterwards", fmt.Sprintf("trial %d: got (%d,%v)", trial, v, ok), "c10-stress:buffer-lost")
+		}
+		select {
+		case _, ok := <-sub.Receive():
+			if ok {
+				fail("something was delivered after the close", fmt.Sprintf("trial %d", trial), "c10-stress:after-close")
+			}
+		default:
+			fail("a closed subscriber's channel never reports closed", fmt.Sprintf("trial %d", trial), "c10-stress:not-closed")
+		}
+		if pubCloser == N {
+			// the publication was not closed: the other subscriber is untouched and still works
+			if len(other.Receive()) != 1 {
+				fail("closing a subscriber affected another one", fmt.Sprintf("trial %d", trial), "c10-stress:others-affected")
+			}
+			<-other.Receive()
+			pub.Publish(43)
+			select {
+			case v := <-other.Receive():
+				if v != 43 {
+					fail("closing a subscriber affected another one", fmt.Sprintf("trial %d: got %d", trial, v), "c10-stress:others-affected")
+				}
+			case <-time.After(10 * time.Second):
+				fail("closing a subscriber affected another one", fmt.Sprintf("trial %d: no delivery within 10s", trial), "c10-stress:others-affected")
+			}
+			other.Close()
+		}
+		res.Evals += N
+	}
+	res.Hist["burst-trials"] = trials
+	res.Sample = fmt.Sprintf("%d trials of 2-6 closers (Subscriber.Close, one of them possibly Publication.Close) released together on a subscriber holding a buffered message", trials)
+	out, _ := json.Marshal(res)
+	fmt.Println(string(out))
 }
 
 // ---------- C10: closers racing publishers (one round = one child process) ----------
@@ -688,7 +867,11 @@ var panicRe = regexp.MustCompile(`(?m)^(panic: .*|fatal error: .*)$`)
 var frameRe = regexp.MustCompile(`(?m)^(github.com/rbell/toolchest/\S+)\(`)
 
 func roundC10(self string, rep *report, round int, seed int64) {
-	cmd := exec.Command(self, "-mode", "c10child", "-seed", fmt.Sprint(seed))
+	childRound(self, rep, round, seed, "-mode", "c10child", "-seed", fmt.Sprint(seed))
+}
+
+func childRound(self string, rep *report, round int, seed int64, args ...string) {
+	cmd := exec.Command(self, args...)
 	var stdout, stderr bytes.Buffer
 	cmd.Stdout, cmd.Stderr = &stdout, &stderr
 	err := cmd.Run()
@@ -749,6 +932,10 @@ func main() {
 		c10child(*seed)
 		return
 	}
+	if *mode == "c10burstchild" {
+		c10burstChild(*seed, *rounds)
+		return
+	}
 	rep := &report{Mode: *mode, Histogram: map[string]int{}}
 	R := map[string]int{"c06": 40, "c15": 12, "c10": 40}[*mode]
 	if *tier == "thorough" {
@@ -764,12 +951,60 @@ func main() {
 		case "c06":
 			roundC06(rng, rep, 0, *roundSeed)
 		case "c15":
-			roundC15(rng, rep, 0, *roundSeed)
+			burstC15(rand.New(rand.NewSource(*roundSeed)), rep, 150, *roundSeed)
+			if len(rep.Failures) == 0 {
+				roundC15(rng, rep, 0, *roundSeed)
+			}
 		case "c10":
-			roundC10(self, rep, 0, *roundSeed)
+			childRound(self, rep, 0, *roundSeed, "-mode", "c10burstchild", "-seed", fmt.Sprint(*roundSeed), "-rounds", "4000")
+			if len(rep.Failures) == 0 {
+				roundC10(self, rep, 0, *roundSeed)
+			}
 		}
 		rep.Rounds = 1
 		R = 0
+	}
+	if *mode == "c15" && *roundSeed == 0 {
+		trials := 150
+		if *tier == "thorough" {
+			trials = 3000
+		}
+		burstC15(rand.New(rand.NewSource(*seed*7919+1)), rep, trials, *seed*7919+1)
+	}
+	if *mode == "c10" && *roundSeed == 0 {
+		// simultaneous closers: three child processes in parallel, thousands of trials each
+		trials := 4000
+		if *tier == "thorough" {
+			trials = 60000
+		}
+		var mu sync.Mutex
+		var wg sync.WaitGroup
+		for k := 0; k < 3; k++ {
+			wg.Add(1)
+			go func() {
+				defer wg.Done()
+				local := &report{Histogram: map[string]int{}}
+				bs := *seed*104729 + int64(k) + 1
+				childRound(self, local, -1-k, bs, "-mode", "c10burstchild", "-seed", fmt.Sprint(bs), "-rounds", fmt.Sprint(trials))
+				mu.Lock()
+				rep.Failures = append(rep.Failures, local.Failures...)
+				rep.Evaluations += local.Evaluations
+				for kk, v := range local.Histogram {
+					if kk != "rounds" {
+						rep.Histogram[kk] += v
+					}
+				}
+				rep.Samples = append(rep.Samples, local.Samples...)
+				mu.Unlock()
+			}()
+		}
+		wg.Wait()
+		if len(rep.Failures) > 1 {
+			rep.Failures = rep.Failures[:1]
+		}
+		if len(rep.Samples) > 1 {
+			rep.Samples = rep.Samples[:1]
+		}
 	}
 	if *mode == "c10" {
 		// independent child processes: four at a time
